@@ -277,10 +277,7 @@ def run(oc, tier, seed):
                     case = {"q": q, "dir": "generated(seed=%d,dir=%d)" % (seed, di)}
                     if m[0] == "oom":
                         oc.count("out_of_model")
-                    elif [m[0], sorted(m[1]) if m[0] == "ok" else m[1]] != impl:
-                        oc.corr_mismatch.append(("get_notes_by_query", dict(case, index=ix), impl, m))
-                        eng.close()
-                        return
+                    corr_bad = m[0] != "oom" and [m[0], sorted(m[1]) if m[0] == "ok" else m[1]] != impl
                     if q.count(" ") >= 2:
                         oc.nontriv(q + str(di))
                     # spec
@@ -308,6 +305,10 @@ def run(oc, tier, seed):
                         else:
                             eng.close()
                             return
+                    if corr_bad:
+                        oc.corr_mismatch.append(("get_notes_by_query", dict(case, index=ix), impl, m))
+                        eng.close()
+                        return
                     if len(oc.samples) < 3:
                         oc.samples.append({"q": q, "returned": impl[1][:5] if impl[0] == "ok" else impl})
     eng.close()
